@@ -124,6 +124,21 @@ Theorem C07_unguarded_draw_deterministic : forall rest, no_global rest -> forall
 Proof. exact unguarded_deterministic. Qed.
 Print Assumptions C07_unguarded_draw_deterministic.
 
+(* 11. A fact of the host (the number of CPUs the process may use: os.cpu_count, sched_getaffinity, joblib.effective_n_jobs - environment
+       kind Host) used as a COUNT of draws / restarts / candidates instead of a degree of parallelism: the same loss, although every proposal
+       is a value of the seeded stream.  A count that is an option of the search is harmless. *)
+Theorem C07_host_count_refuted : exists sd g g',
+  run (counted propose_next) sd g 0 0 <> run (counted propose_next) sd g' 0 0 /\
+  (forall v, In v (run (counted propose_next) sd g 0 0) -> exists i, v = sd i) /\
+  (forall v, In v (run (counted propose_next) sd g' 0 0) -> exists i, v = sd i).
+Proof. exact counted_refuted. Qed.
+Print Assumptions C07_host_count_refuted.
+
+Theorem C07_fixed_count_deterministic : forall n rest, no_global rest -> forall sd g g' i j j',
+  run (skip n rest) sd g i j = run (skip n rest) sd g' i j'.
+Proof. exact fixed_count_deterministic. Qed.
+Print Assumptions C07_fixed_count_deterministic.
+
 (* ---- non-vacuity *)
 Definition c_example (s : search_t) (a : acq_t) : cfg :=
   {| c_search := s; c_surr := 1; c_acq := a; c_acq_d := false; c_strategy := 0; c_init := 0; c_cond := false; c_moo := false;
@@ -146,5 +161,9 @@ Example numpy_seed_witness_on_snapshot :
 Proof. reflexivity. Qed.
 Example a_guarded_site_would_break : sites_ok wfacts (c_example CBO UCB) ({| s_owner := O_CBO; s_key := S_None; s_cls := K_Guarded |} :: nsites) = false.
 Proof. vm_compute. reflexivity. Qed.
+Example a_host_count_would_break :
+  env_ok wfacts (c_example CBO UCB) ({| e_owner := O_CBO; e_key := S_None; e_kind := E_Host; e_flow := F_Flows |} :: nenv) = false
+  /\ env_ok wfacts (c_example CBO UCB) ({| e_owner := O_CBO; e_key := S_None; e_kind := E_Host; e_flow := F_Parallelism |} :: nenv) = true.
+Proof. vm_compute. split; reflexivity. Qed.
 Example seeds_matter : forall g, run (prog_of (fun l => hd 0%Z l) [SSeeded] []) (fun _ => 1%Z) g 0 0 <> run (prog_of (fun l => hd 0%Z l) [SSeeded] []) (fun _ => 2%Z) g 0 0.
 Proof. intros g. apply seed_sensitive. cbn. discriminate. Qed.
